@@ -47,7 +47,7 @@ pub fn replay(run: &[Value], _sub: &str) -> Vec<Value> {
 
 pub fn gen(out: &mut Out, _sub: &str) {
     let mut rng = Rng::new(out.seed ^ 0xC09);
-    let n = out.size(1200, 30000);
+    let n = out.size(900, 24000);
     let mut kinds = [0u64; 3];
     for i in 0..n {
         let mut r = rng.fork();
